@@ -397,7 +397,49 @@ TieLitTable ==
   ("100" :> <<100, 1>>) @@ ("200" :> <<200, 1>>) @@ ("57" :> <<57, 1>>) @@ ("107" :> <<107, 1>>) @@ ("201" :> <<201, 1>>) @@
   ("0.29" :> <<29, 100>>) @@ ("0.28" :> <<7, 25>>) @@ ("1.01" :> <<101, 100>>) @@ ("2.68" :> <<67, 25>>) @@
   ("2.67" :> <<267, 100>>) @@ ("0.2" :> <<1, 5>>) @@ ("0.1" :> <<1, 10>>) @@ ("2.7" :> <<27, 10>>)
-AllLits == LitTable @@ TieLitTable
+\* numeral SPELLINGS (MC_Expr family "spell"): one value written in several ways -- leading
+\* zeros, a fraction of zeros, a bare trailing / leading point.  A numeral is the sequence of
+\* its characters; its value is NOT written down here but computed from the characters by
+\* positional notation (NumeralValue), so the table cannot disagree with the spelling.
+SpellChars ==
+  ("00" :> <<"0", "0">>) @@ ("000" :> <<"0", "0", "0">>) @@ ("0.0" :> <<"0", ".", "0">>) @@ ("0." :> <<"0", ".">>) @@
+  (".0" :> <<".", "0">>) @@ ("00.00" :> <<"0", "0", ".", "0", "0">>) @@
+  ("01" :> <<"0", "1">>) @@ ("001" :> <<"0", "0", "1">>) @@ ("0001" :> <<"0", "0", "0", "1">>) @@
+  ("1.0" :> <<"1", ".", "0">>) @@ ("1.00" :> <<"1", ".", "0", "0">>) @@ ("01.0" :> <<"0", "1", ".", "0">>) @@
+  ("1." :> <<"1", ".">>) @@ ("01." :> <<"0", "1", ".">>) @@ ("001.000" :> <<"0", "0", "1", ".", "0", "0", "0">>) @@
+  ("02" :> <<"0", "2">>) @@ ("002" :> <<"0", "0", "2">>) @@ ("2.0" :> <<"2", ".", "0">>) @@ ("02.00" :> <<"0", "2", ".", "0", "0">>) @@
+  ("010" :> <<"0", "1", "0">>) @@ ("0010" :> <<"0", "0", "1", "0">>) @@ ("10.0" :> <<"1", "0", ".", "0">>) @@ ("10." :> <<"1", "0", ".">>) @@
+  ("11" :> <<"1", "1">>) @@ ("011" :> <<"0", "1", "1">>) @@ ("11.0" :> <<"1", "1", ".", "0">>) @@
+  ("21" :> <<"2", "1">>) @@ ("021" :> <<"0", "2", "1">>) @@ ("101" :> <<"1", "0", "1">>) @@ ("0101" :> <<"0", "1", "0", "1">>) @@
+  ("0100" :> <<"0", "1", "0", "0">>) @@ ("100.0" :> <<"1", "0", "0", ".", "0">>) @@
+  ("01.5" :> <<"0", "1", ".", "5">>) @@ ("1.50" :> <<"1", ".", "5", "0">>) @@ ("001.500" :> <<"0", "0", "1", ".", "5", "0", "0">>) @@
+  ("00.5" :> <<"0", "0", ".", "5">>) @@ ("0.50" :> <<"0", ".", "5", "0">>) @@ (".50" :> <<".", "5", "0">>) @@
+  ("0.10" :> <<"0", ".", "1", "0">>) @@ ("00.1" :> <<"0", "0", ".", "1">>) @@ (".1" :> <<".", "1">>) @@
+  ("1.10" :> <<"1", ".", "1", "0">>) @@ ("1.1" :> <<"1", ".", "1">>) @@ ("01.1" :> <<"0", "1", ".", "1">>) @@
+  ("0.1" :> <<"0", ".", "1">>) @@ ("100" :> <<"1", "0", "0">>)      \* (also in TieLitTable, with the same value)
+DigitOfChar == ("0" :> 0) @@ ("1" :> 1) @@ ("2" :> 2) @@ ("3" :> 3) @@ ("4" :> 4) @@ ("5" :> 5) @@ ("6" :> 6) @@
+               ("7" :> 7) @@ ("8" :> 8) @@ ("9" :> 9)
+RECURSIVE DigitsInt(_, _)
+DigitsInt(cs, acc) == IF Len(cs) = 0 THEN acc ELSE DigitsInt(Tail(cs), 10 * acc + DigitOfChar[cs[1]])
+PointAt(cs) == IF \E i \in 1..Len(cs) : cs[i] = "." THEN CHOOSE i \in 1..Len(cs) : cs[i] = "." ELSE Len(cs) + 1
+\* <<n, d>> in lowest terms of the numeral  digits [ "." digits-or-none ]  |  "." digits  (at most 4 fraction digits)
+NumeralValue(cs) ==
+  LET p == PointAt(cs)
+      ip == SubSeq(cs, 1, p - 1)
+      fp == SubSeq(cs, p + 1, Len(cs))
+      n == DigitsInt(ip \o fp, 0)
+      d == CASE Len(fp) = 0 -> 1 [] Len(fp) = 1 -> 10 [] Len(fp) = 2 -> 100 [] Len(fp) = 3 -> 1000 [] Len(fp) = 4 -> 10000
+      g == IF n = 0 THEN d ELSE Gcd(n, d)
+  IN <<n \div g, d \div g>>
+SpellLitTable == [t \in DOMAIN SpellChars |-> NumeralValue(SpellChars[t])]
+\* how a numeral is spelled (the classes the harness reports): canonical, or a subset of the others
+NumeralSpelling(cs) ==
+  LET p == PointAt(cs) IN
+  (IF p > 2 /\ cs[1] = "0" THEN {"leading-zeros"} ELSE {})
+  \cup (IF p = 1 THEN {"no-integer-part"} ELSE {})
+  \cup (IF p = Len(cs) THEN {"bare-trailing-point"} ELSE {})
+  \cup (IF p < Len(cs) /\ cs[Len(cs)] = "0" THEN {"trailing-fraction-zeros"} ELSE {})
+AllLits == LitTable @@ TieLitTable @@ SpellLitTable
 IsLit(t) == t \in DOMAIN AllLits
 \* "HUGE": a 400-digit integer literal; "TINY": 0.000...01 with 320 zeros
 NumVal(t) == CASE t = "HUGE" -> Ix("p", "huge")
